@@ -41,6 +41,17 @@ var maxInstTotal = 6000
 
 // indexCandidates collects terms used as array indices (of the given sort) or as
 // positions of strbyte in the cone of roots.
+// skolemish: a witness constant introduced for an assumed existential (or an offset of one).
+func skolemish(t *Term) bool {
+	if len(t.Args) == 0 && strings.HasPrefix(t.Name, "sk_") {
+		return true
+	}
+	if t.Op == "bvadd" {
+		return skolemish(t.Args[0]) || skolemish(t.Args[1])
+	}
+	return false
+}
+
 func indexCandidates(order []*Term, srt *Sort) []*Term {
 	seen := map[int]bool{}
 	var out []*Term
@@ -172,8 +183,15 @@ func (P *Prog) buildQuery(o *Obligation) (asserts []*Term, stats string) {
 				if !have {
 					cands = indexCandidates(order, lf.Sort)
 					if len(cands) > maxInstCandidates {
-						// prefer older (smaller) terms
-						sort.SliceStable(cands, func(i, j int) bool { return cands[i].id < cands[j].id })
+						// prefer witnesses of assumed existentials (sk_ constants and offsets of
+						// them), then older (smaller) terms
+						sort.SliceStable(cands, func(i, j int) bool {
+							si, sj := skolemish(cands[i]), skolemish(cands[j])
+							if si != sj {
+								return si
+							}
+							return cands[i].id < cands[j].id
+						})
 						cands = cands[:maxInstCandidates]
 					}
 					candBySort[lf.Sort] = cands
@@ -242,6 +260,9 @@ func (P *Prog) buildQuery(o *Obligation) (asserts []*Term, stats string) {
 					}
 					done[k] = true
 					inst := Implies(lf.Guard, body)
+					if os.Getenv("VERIF_DEBUG") == "inst" {
+						fmt.Fprintf(os.Stderr, "inst %s: %.100s @ %.60s\n", o.Name, lf.Desc, c.String())
+					}
 					if inst != True {
 						added = append(added, inst)
 						total++
